@@ -39,7 +39,7 @@ Inductive blk := BNormal | BErr.
 
 Inductive starter_pc := StIdle | StAt (p : spt) | StDo (p : spt) | StAtRD | StDoRD | StRet (r : rc) | StDone (r : rc).
 Inductive core_pc := CNone | CAtSel | CSel | CProc | CAtBlk | CAtRet | CAtRD | CDoRD | CDone.
-Inductive prod_pc := PNone | PLoop | PSend (b : blk) | PDone.
+Inductive prod_pc := PNone | PLoop | PSend (b : blk) | PClosing | PDone.
 
 (* program locations of a Stop caller, and how many callers are at each *)
 Inductive sloc := LIdle | LLocked | LSwitch | LAtAbort | LWait | LAtWaited | LPost | LAtRet | LRetOk | LRetErr | LDoneOk | LDoneErr.
@@ -219,8 +219,11 @@ Definition step_core (c : cfg) (s : state) : option state :=
 
 Inductive pchoice := PTick | PAbort | PSelf.
 
-(* the abort / timeout branch: release the hardware, close(nextBlock), exit *)
-Definition close_prod (s : state) : state := set_prod (set_nb (release_all s) ChClosed) PDone.
+(* the abort / timeout branch, two separate operations: first give the hardware back (closeDevices / ls.stop),
+   then close(nextBlock) and exit.  The order matters: the core loop, and through it every Stop caller, is let go
+   by the second one. *)
+Definition begin_close (s : state) : state := set_prod (release_all s) PClosing.
+Definition finish_close (s : state) : state := set_prod (set_nb s ChClosed) PDone.
 
 Definition step_prod (c : cfg) (s : state) (ch : pchoice) : option state :=
   match prod s with
@@ -244,15 +247,16 @@ Definition step_prod (c : cfg) (s : state) (ch : pchoice) : option state :=
       | PAbort =>
           match c_kind c, abort s with
           | KErr, _ => None                       (* ErroringSource never looks at abortSelf *)
-          | _, ChClosed => Some (close_prod s)
+          | _, ChClosed => Some (begin_close s)
           | _, _ => None
           end
       | PSelf =>                                  (* Abaco: no data for 5 s *)
           match c_kind c with
-          | KAbaco => Some (close_prod s)
+          | KAbaco => Some (begin_close s)
           | _ => None
           end
       end
+  | PClosing => match ch with PAbort => Some (finish_close s) | _ => None end
   | _ => None
   end.
 
